@@ -1,6 +1,8 @@
 import Kopf.Drv.Json
 import Kopf.Model.C19_Watch
 import Kopf.Model.C19_Ensemble
+import Kopf.Model.C19_Insights
+import Kopf.Model.C19_Orchestrator
 open Lean
 namespace Kopf.Drv.C19
 open Kopf.C19
@@ -111,8 +113,52 @@ def histSteps (e : Ensemble) : List Ev → List Json
       let row := e'.watchers.map (fun t => Json.arr #[keyJ t.1, .bool (decide (e.next ≤ t.2))])
       Json.arr row.toArray :: histSteps e' rest
 
+/-- what the namespace observer's consumer was fed: `[type | null, key]`; null = a listed item -/
+def feedOf? (j : Json) (i : Nat) : Option Out := do
+  match ← jArr? j with
+  | [.null, k] => some (.item (← jNat? k) i)
+  | [.str t, k] => some (.event (← kindOf? t) (← jNat? k) i)
+  | _ => none
+
+/-- after every fed item: the keys of the universe that `evView` serves -/
+def nsFold (base : List Nat) (univ : List Nat) : List Out → List Out → List (List Nat)
+  | _, [] => []
+  | past, o :: rest =>
+      let outs := o :: past
+      univ.filter (fun k => (evView (fun k => if base.contains k then some 0 else none) outs k).isSome)
+        :: nsFold base univ outs rest
+
+open Kopf.C19.Ens in
+/-- an orchestrator label: ["revise", insights] | ["acquire"] | ["termDone"] | ["spawnAll"] | ["die", [name, ns]] -/
+def labelOf? (j : Json) : Option Kopf.C19.Orch.Label := do
+  match ← jArr? j with
+  | [.str "revise", ins] => some (.revise (← insightsOf? ins))
+  | [.str "acquire"] => some .acquire
+  | [.str "termDone"] => some .termDone
+  | [.str "spawnAll"] => some .spawnAll
+  | [.str "die", k] => some (.die (← keyOf? k))
+  | _ => none
+
+open Kopf.C19.Ens in
+/-- replay a trace of the real orchestrator; after every label: is it enabled, and the ensemble's keys -/
+def orchReplay (s : Kopf.C19.Orch.State) : List Kopf.C19.Orch.Label → List Json
+  | [] => []
+  | l :: rest =>
+      match Kopf.C19.Orch.step s l with
+      | none => [Json.str "disabled"]
+      | some s' => Json.arr (s'.ens.keys.map keyJ).toArray :: orchReplay s' rest
+
 def handle : DrvHandler := fun op args =>
   match op, args with
+  | "C19.orch", [labels] => do
+      let ls ← (← jArr? labels).mapM labelOf?
+      some (ok (.arr (orchReplay (Kopf.C19.Orch.init true) ls).toArray))
+  | "C19.nsfold", [base, feed, univ] => do
+      let b ← (← jArr? base).mapM jNat?
+      let u ← (← jArr? univ).mapM jNat?
+      let fs ← jArr? feed
+      let outs ← (fs.zipIdx).mapM (fun (j, i) => feedOf? j (i + 1))
+      some (ok (.arr ((nsFold b u [] outs).map (fun ks => Json.arr (ks.map (fun (k : Nat) => Json.num ((k : Nat) : Int))).toArray)).toArray))
   | "C19.run", [srv0, acts] => do
       let s0 ← jNat? srv0
       let as ← (← jArr? acts).mapM actOf?
